@@ -91,7 +91,11 @@ int main(int argc, char** argv) {
 			Interp I; auto sigma = sigma_alphabet();
 			// (i) registers a word can modify are recorded as written (interpreter table and JIT table)
 			auto E = make_engine(RANDOMX_FLAG_JIT, cache, nullptr); auto* jc = jit_of(*E);
-			for (auto& w : sigma) {
+			// words: the Sigma alphabet plus EVERY opcode x dst x src with a few mod/imm32 classes (a slip for one register or one opcode of a type is enough)
+			std::vector<Word> facts(sigma.begin(), sigma.end());
+			{ static const struct { unsigned mod; uint32_t imm; } MI[] = { { 0x00, 0 }, { 0xFC, 0xFFFFFFFFu }, { 0x51, 7 }, { 0x0E, 0x80000000u }, { 0xA3, 65536 }, { 0x30, 0x00012300 } };
+			  for (int op = 0; op < 256; ++op) for (int d = 0; d < 8; ++d) for (int sr = 0; sr < 8; ++sr) for (auto& mi : MI) { if (!th && (&mi - MI) >= 3 && ((op + d + sr) & 3)) continue; facts.push_back(W(op, d, sr, mi.mod, mi.imm)); } }
+			for (auto& w : facts) {
 				I.begin(); I.decode(w, 7); bool changed[8] = { false };
 				for (int st = 0; st < 4; ++st) {
 					uint64_t before[8]; for (int i = 0; i < 8; ++i) before[i] = I.nreg.r[i] = 0x9E3779B97F4A7C15ull * (i + 1 + st * 8) ^ (0x1111111111111111ull * st);
@@ -100,11 +104,14 @@ int main(int argc, char** argv) {
 					unsigned csr = get_mxcsr(); BytecodeMachine::executeInstruction(bc, pc, I.sp, I.cfg, RANDOMX_FLAG_DEFAULT); set_mxcsr(csr);
 					for (int i = 0; i < 8; ++i) if (I.nreg.r[i] != before[i]) changed[i] = true;
 				}
-				ProgBuf p; p.fill_noop(); set_config_block(p, 0); p.set_word(7, w); randomx::Program prog; memcpy(&prog, p.b, ProgBytes); randomx::ProgramConfiguration pc{}; jc->generateProgramLight(prog, pc, 0);
+				// the word under test sits in the LAST slot the compiler looks at, so that what the table says about r afterwards is what this word
+				// recorded (a filler wrongly treated as a writer is a different defect - C05's - and does not affect termination)
+				const int LS = (int)randomx::Program::getSize(jc->vmFlags) - 1;
+				ProgBuf p; p.fill_noop(); set_config_block(p, 0); p.set_word(LS, w); randomx::Program prog; memcpy(&prog, p.b, ProgBytes); randomx::ProgramConfiguration pc{}; jc->generateProgramLight(prog, pc, 0);
 				for (int r = 0; r < 8; ++r) if (changed[r]) {
 					R.n["writer_facts"]++;
 					if (I.bm.registerUsage[r] != 7) viol("c07:writer", "interpreter: " + word_json(w).s + " modifies r" + std::to_string(r) + " but does not record it as written (a later branch on it could loop over its own writer)", vf::Json::obj().set("kind", "m3"));
-					if (jc->registerUsage[r] != 7) viol("c07:writer", "x86 JIT: " + word_json(w).s + " modifies r" + std::to_string(r) + " but does not record it as written", vf::Json::obj().set("kind", "m3"));
+					if (jc->registerUsage[r] != LS) viol("c07:writer", "x86 JIT: " + word_json(w).s + " modifies r" + std::to_string(r) + " but does not record it as written", vf::Json::obj().set("kind", "m3"));
 				}
 			}
 			// (ii)+(iii) all programs of length <= 5 over a structural alphabet on 3 registers
@@ -145,13 +152,22 @@ int main(int argc, char** argv) {
 					};
 					uint64_t worst = 0; adv(0, -1, 0, 0, worst); R.mx["adversary_max_steps_x100_per_len"] = std::max<uint64_t>(R.mx["adversary_max_steps_x100_per_len"], worst * 100 / len);
 					if (worst > (uint64_t)(3 * len)) viol("c07:budget", "adversarial branch outcomes execute " + std::to_string(worst) + " instructions in a program of length " + std::to_string(len), vf::Json::obj().set("kind", "m3"));
-					// JIT targets equal interpreter targets
+					// the same structural invariant on the targets the x86 JIT emitted (its own bookkeeping, not the interpreter's: a target that merely
+					// differs from the interpreter's without breaking the invariant is C04's finding, not a termination problem)
 					if ((id & 7) == 0 || th) {
 						ProgBuf p; p.fill_noop(); set_config_block(p, 0); for (int i = 0; i < len; ++i) p.set_word(i, P[i]);
 						randomx::Program prog; memcpy(&prog, p.b, ProgBytes); randomx::ProgramConfiguration pcf{}; jc->generateProgramLight(prog, pcf, 0); R.n["jit_target_programs"]++;
 						for (int i = 0; i < len; ++i) if (bc[i].type == InstructionType::CBRANCH) {
 							X86Branch xb; if (!decode_x86_cbranch(jc, i, jc->instructionOffsets[i + 1], xb)) { R.n["jit_branch_encodings_not_recognised"]++; continue; }
-							if (xb.target_off != jc->instructionOffsets[bc[i].target + 1]) viol("c07:jit-target", "x86 JIT branch target differs from the interpreter's", vf::Json::obj().set("kind", "m3"));
+							int reg = (int)(bc[i].idst - nr.r), k = -1; for (int q = 0; q <= i; ++q) if (jc->instructionOffsets[q] == xb.target_off) { k = q; break; }
+							if (xb.target_off != jc->instructionOffsets[bc[i].target + 1]) R.n["jit_targets_differing_from_interpreter"]++;
+							if (k < 0) { viol("c07:jit-target", "x86 JIT branch does not jump to the start of an instruction at or before the branch", vf::Json::obj().set("kind", "m3")); continue; }
+							for (int j = k; j < i; ++j) {
+								bool writes = false;
+								if (bc[j].type == InstructionType::CBRANCH) { viol("c07:jit-nested", "x86 JIT: a branch body contains another branch", vf::Json::obj().set("kind", "m3")); break; }
+								if ((int)bc[j].type <= (int)InstructionType::ISWAP_R) { if ((int)(bc[j].idst - nr.r) == reg) writes = true; if (bc[j].type == InstructionType::ISWAP_R && (int)((const uint64_t*)bc[j].isrc - nr.r) == reg) writes = true; }
+								if (writes) { viol("c07:jit-body-writes", "x86 JIT: a branch body modifies the branch register", vf::Json::obj().set("kind", "m3")); break; }
+							}
 						}
 					}
 				}
@@ -204,7 +220,7 @@ int main(int argc, char** argv) {
 	ev.coverage.set("states", (unsigned long long)total.n["model_states"]).set("transitions", (unsigned long long)total.n["transitions"]).set("traces_validated_against_impl", (unsigned long long)total.n["traces_replayed"])
 		.set("evaluations", (unsigned long long)(total.n["premise_cases"] + total.n["jit_premise_cases"] + total.n["structural_programs"] + total.n["traces_replayed"])).set("distinct_nontrivial", (unsigned long long)(total.n["model_states"]))
 		.set("exhaustive", !total.incomplete)
-		.set("rule", std::string("M1: all abstract states (16 shifts x 512 register windows x 128 constant windows x 8 carry triples) of the three-step branch arithmetic, invariant 'not taken three times in a row'; each (shift, window, constant) concretised with ") + (th ? "4" : "2") + " low-part choices and replayed on the real decoder + exe_CBRANCH (step results and taken/not-taken must match the model); M2: premises of the model checked on the real decoder for " + (th ? "ALL 2^32 immediates" : "all immediates within 3 bit flips of 0/0xFFFFFFFF and sliding 16-bit windows") + " x 16 shifts, and on the x86 emitter's bytes for the boundary immediate set x 16 shifts x 8 registers; M3: writer facts by differential execution vs the interpreter's and the JIT's last-writer tables for every Sigma word, all programs up to length 5 over a 13-word structural alphabet: decoded targets satisfy 'no branch and no writer of the branch register inside a branch body', x86 targets == interpreter targets, exhaustive adversary (each branch at most twice in a row) executes <= 3*|P| instructions");
+		.set("rule", std::string("M1: all abstract states (16 shifts x 512 register windows x 128 constant windows x 8 carry triples) of the three-step branch arithmetic, invariant 'not taken three times in a row'; each (shift, window, constant) concretised with ") + (th ? "4" : "2") + " low-part choices and replayed on the real decoder + exe_CBRANCH (step results and taken/not-taken must match the model); M2: premises of the model checked on the real decoder for " + (th ? "ALL 2^32 immediates" : "all immediates within 3 bit flips of 0/0xFFFFFFFF and sliding 16-bit windows") + " x 16 shifts, and on the x86 emitter's bytes for the boundary immediate set x 16 shifts x 8 registers; M3: writer facts by differential execution vs the interpreter's and the JIT's last-writer tables for every Sigma word and every opcode x dst x src x a few mod/imm32 classes (word in the last compiled slot), all programs up to length 5 over a 13-word structural alphabet: decoded targets satisfy 'no branch and no writer of the branch register inside a branch body', the targets emitted by the x86 JIT (decoded from its code) satisfy the same invariant on their own and land on an instruction start (targets that merely differ from the interpreter's are counted, that comparison is C04's), exhaustive adversary (each branch at most twice in a row) executes <= 3*|P| instructions");
 	ev.assumptions = { "the 3*|P| bound for length-384 programs is inferred from the structural invariant checked on all short programs plus per-slot facts (C05 compares every decoded branch target of the large program families with the specification); it is not enumerated at length 384", "letting the carries be free over-approximates every real low part" };
 	return vf::finish(args, total, ev);
 }
